@@ -433,6 +433,9 @@ func (sh *SessionHandler) rpcRenewAndClearContract(s *session, log *zap.Logger) 
 		s.t.WriteResponseErr(err)
 		return contracts.Usage{}, fmt.Errorf("failed to renew contract: %w", err)
 	}
+	// the locked contract has been cleared: later RPCs of this session must be
+	// validated against the clearing revision
+	s.contract = signedClearing
 
 	// send the host signatures to the renter
 	hostSigsResp := &rhp2.RPCRenewAndClearContractSignatures{
